@@ -180,6 +180,34 @@ func runC06(prop string, res *Result, pool *DrvPool, r *Rng) {
 		}
 		os.RemoveAll(dir)
 	}
+	// a frame that can be rooted in two ways under the same local root (a `src` directory inside a
+	// package directory): whichever candidate the code prefers, it must prefer it every time
+	if dir, err := os.MkdirTemp("", "verif-c06-roots-"); err == nil {
+		os.MkdirAll(filepath.Join(dir, "src", "foo", "src", "foo"), 0o755)
+		os.WriteFile(filepath.Join(dir, "src", "foo", "src", "foo", "bar.go"), []byte("package foo\n"), 0o644)
+		os.WriteFile(filepath.Join(dir, "src", "foo", "bar.go"), []byte("package foo\n"), 0o644)
+		os.MkdirAll(filepath.Join(dir, "pkg", "mod", "m@v1.0.0", "pkg", "mod", "m@v1.0.0"), 0o755)
+		os.WriteFile(filepath.Join(dir, "pkg", "mod", "m@v1.0.0", "pkg", "mod", "m@v1.0.0", "x.go"), []byte("package m\n"), 0o644)
+		os.WriteFile(filepath.Join(dir, "pkg", "mod", "m@v1.0.0", "x.go"), []byte("package m\n"), 0o644)
+		txt := "goroutine 1 [running]:\nfoo.Bar(0x1)\n\t/work/src/foo/src/foo/bar.go:3 +0x1\nm.X()\n\t/other/pkg/mod/m@v1.0.0/pkg/mod/m@v1.0.0/x.go:1 +0x1\nmain.main()\n\t/work/src/app/main.go:5 +0x2\n\n"
+		opts := &stack.Opts{LocalGOPATHs: []string{dir}, GuessPaths: true}
+		scan := func() string {
+			s, _, _ := stack.ScanSnapshot(strings.NewReader(txt), io.Discard, opts)
+			if s == nil {
+				return "nil"
+			}
+			return strings.ReplaceAll(fmt.Sprintf("%v %v %+v", s.RemoteGOPATHs, s.RemoteGOROOT, derefG(s.Goroutines)), dir, "$DIR")
+		}
+		ref := scan()
+		for k := 0; k < countN(res.Tier, 400, 4000); k++ {
+			if got := scan(); got != ref {
+				res.Violation(Finding{Stream: "repeat-roots", What: "the same dump, with a frame that can be rooted in two ways under one local root, scanned twice with path guessing on gave different results: " + diffAround(ref, got), Op: map[string]interface{}{"input": hb(txt), "layout": "$DIR/src/foo/src/foo/bar.go, $DIR/src/foo/bar.go, $DIR/pkg/mod/m@v1.0.0/pkg/mod/m@v1.0.0/x.go, $DIR/pkg/mod/m@v1.0.0/x.go"}})
+				break
+			}
+			res.Count("root-repeats")
+		}
+		os.RemoveAll(dir)
+	}
 	runHistory(res, r.Fork())
 	// across processes
 	self, _ := os.Executable()
@@ -264,4 +292,12 @@ func runHistory(res *Result, r *Rng) {
 			}
 		}
 	}
+}
+
+func derefG(gs []*stack.Goroutine) []stack.Goroutine {
+	out := make([]stack.Goroutine, len(gs))
+	for i, g := range gs {
+		out[i] = *g
+	}
+	return out
 }
